@@ -22,7 +22,8 @@ COQ_MODEL_OBS = "c18_model_show"
 RULE = (
     "sweep of ALL masks of all shapes up to 2x2x2, 3x2/2x3 and 1-D up to 4 (thorough: also 3x2x2, 4x2, 2x4, "
     "1-D up to 6 and random larger shapes) x both orders x masked-array / separate-mask call form x plain / "
-    "pint-wrapped, further mask arguments (None, FLEX, NONE, nomask) with and without extra kwargs; prepare with "
+    "pint-wrapped, the explicit mask written as bool / int / uint8 ndarray or nested list of bools / ints (plus a "
+    "dedicated family of non-bool separate masks incl. larger fields), further mask arguments (None, FLEX, NONE, nomask) with and without extra kwargs; prepare with "
     "flat / shaped / time-axis payloads on C and F ordered grids; all pairs of mask specifications (unset, FLEX, "
     "NONE, nomask, all-false, same physical mask, raw-equal bits, one-bit-different, full) x grid layouts (unset, "
     "NoGrid, uniform with axes_reversed / axes_increase combinations, cell and point data) through Info.accepts "
@@ -149,9 +150,12 @@ def _bits_of(k, n):
     return [bool((k >> i) & 1) for i in range(n)]
 
 
-def _round(shape, order, vals, own, arg, kw=False, quant=False, argform="kw"):
+MFORMS = ["bool", "int", "uint8", "list_bool", "list_int"]   # how an explicit mask is written down
+
+
+def _round(shape, order, vals, own, arg, kw=False, quant=False, argform="kw", mform="bool"):
     return {"k": "round", "shape": shape, "order": order, "vals": vals, "own": own, "arg": arg, "kw": kw,
-            "quant": quant, "argform": argform}
+            "quant": quant, "argform": argform, "mform": mform}
 
 
 def _gen_round_sweep(rng, shapes, full):
@@ -165,12 +169,29 @@ def _gen_round_sweep(rng, shapes, full):
                 if not full:
                     combos = [combos[(k + (order == "F")) % 4], combos[(k + 2 + (order == "F")) % 4]] if n <= 6 else \
                              [combos[(k + (order == "F")) % 4]]
-                for form, quant in combos:
+                for ci, (form, quant) in enumerate(combos):
                     vals = _vals(rng, n)
+                    # the same mask written as bool / int / uint8 array or nested list (each mask sees 4 of the 5)
+                    mform = MFORMS[(k + 2 * (order == "F") + ci) % len(MFORMS)]
                     if form == "own":
-                        cases.append(_round(shape, order, vals, bits, "unset", quant=quant))
+                        cases.append(_round(shape, order, vals, bits, "unset", quant=quant, mform=mform))
                     else:
-                        cases.append(_round(shape, order, vals, None, {"shape": shape, "bits": bits}, quant=quant))
+                        cases.append(_round(shape, order, vals, None, {"shape": shape, "bits": bits}, quant=quant,
+                                            mform=mform))
+    return cases
+
+
+def _gen_round_nonbool(rng, ncases):
+    """unmasked (plain / quantified) data + separately passed mask that is a valid mask but not a bool ndarray"""
+    cases = []
+    shapes = QUICK_SHAPES + THOROUGH_SHAPES + [[5], [7], [1, 5], [4, 1, 3], [16, 17]]
+    for j in range(ncases):
+        shape = rng.choice(shapes)
+        n = _size(shape)
+        p = [0.0, 0.3, 0.5, 1.0, 0.3, 0.5][j % 6]
+        bits = [rng.random() < p for _ in range(n)]
+        cases.append(_round(shape, "CF"[j % 2], _vals(rng, n), None, {"shape": shape, "bits": bits},
+                            kw=rng.random() < 0.15, quant=(j // 2) % 2 == 1, mform=MFORMS[1 + j % 4]))
     return cases
 
 
@@ -186,7 +207,7 @@ def _gen_round_misc(rng, nper):
         own = rng.choice([None, None, None, "nomask", bits])
         arg = rng.choice(["unset", "flex", "none", "nomask", {"shape": shape, "bits": [rng.random() < 0.5 for _ in range(n)]}])
         cases.append(_round(shape, order, _vals(rng, n), own, arg, kw=rng.random() < 0.4, quant=rng.random() < 0.4,
-                            argform=rng.choice(["kw", "omit"]) if arg == "unset" else "kw"))
+                            argform=rng.choice(["kw", "omit"]) if arg == "unset" else "kw", mform=rng.choice(MFORMS)))
     return cases
 
 
@@ -201,7 +222,7 @@ def _gen_round_random(rng, ncases):
         form = rng.choice(["own", "arg"])
         cases.append(_round(shape, rng.choice("CF"), _vals(rng, n), bits if form == "own" else None,
                             "unset" if form == "own" else {"shape": shape, "bits": bits}, kw=rng.random() < 0.2,
-                            quant=rng.random() < 0.5))
+                            quant=rng.random() < 0.5, mform=rng.choice(MFORMS)))
     return cases
 
 
@@ -496,6 +517,12 @@ CORPUS = [
     # finding D3: pint-wrapped plain data with a separate mask
     _round([3, 2], "F", [0, 1, 2, 3, 4, 5], None, _M([3, 2], [1, 0, 0, 0, 0, 1]), quant=True),
     _round([2, 2], "C", [5, 6, 7, 8], None, "nomask", quant=True),
+    # seeded mutant C18_e: `~mask` instead of logical_not: masks that are valid but not bool ndarrays
+    _round([5], "C", [7, 4, 3, 6, 1], None, _M([5], [0, 0, 0, 0, 0]), mform="int"),
+    _round([3, 2], "F", [0, 1, 2, 3, 4, 5], None, _M([3, 2], [1, 0, 0, 0, 0, 1]), mform="list_int", quant=True),
+    _round([2, 2, 2], "F", list(range(8)), None, _M([2, 2, 2], [0, 1, 1, 0, 0, 0, 0, 1]), mform="uint8"),
+    _round([2, 3], "C", [10, 11, 12, 13, 14, 15], None, _M([2, 3], [1, 1, 1, 1, 1, 1]), mform="list_bool"),
+    _round([2, 3], "F", [10, 11, 12, 13, 14, 15], [0, 1, 0, 0, 1, 0], "unset", mform="int"),
     # Mask.NONE with extra kwargs is refused, FLEX with kwargs gives a masked array
     _round([2, 2], "C", [5, 6, 7, 8], None, "none", kw=True),
     _round([2, 2], "F", [5, 6, 7, 8], None, "flex", kw=True),
@@ -550,6 +577,7 @@ def generate(rng, tier):
         cases += _gen_round_sweep(rng, QUICK_SHAPES, full=True)
         cases += _gen_round_misc(rng, 250)
         cases += _gen_round_random(rng, 150)
+        cases += _gen_round_nonbool(rng, 480)
         cases += _gen_prepare(rng, QUICK_SHAPES, 16)
         cases += _gen_accept(rng, 700)
         cases += _gen_accept_sweep([[2], [2, 2]])[::3]
@@ -559,6 +587,7 @@ def generate(rng, tier):
         cases += _gen_round_sweep(rng, QUICK_SHAPES + THOROUGH_SHAPES, full=True)
         cases += _gen_round_misc(rng, 3000)
         cases += _gen_round_random(rng, 10000)
+        cases += _gen_round_nonbool(rng, 6000)
         cases += _gen_prepare(rng, QUICK_SHAPES + THOROUGH_SHAPES, 40)
         cases += _gen_accept(rng, 12000)
         cases += _gen_accept_sweep([[2], [3], [2, 2], [3, 2]])
@@ -580,6 +609,20 @@ def _py_mask(m):
     if m == "nomask":
         return np.ma.nomask
     return np.array(m["bits"], dtype=bool).reshape(tuple(m["shape"]))
+
+
+def _mask_as(bits, shape, mform):
+    """an explicit mask written as bool / int / uint8 ndarray or as nested list of bools / ints"""
+    a = np.array(bits, dtype=bool).reshape(tuple(shape))
+    if mform == "int":
+        return a.astype(np.int64)
+    if mform == "uint8":
+        return a.astype(np.uint8)
+    if mform == "list_bool":
+        return a.tolist()
+    if mform == "list_int":
+        return a.astype(int).tolist()
+    return a
 
 
 def _py_grid(g, dims):
@@ -609,15 +652,16 @@ def _run_round(c):
     shape = tuple(c["shape"])
     a = np.array(c["vals"], dtype=np.int64).reshape(shape)
     own = c["own"]
+    mform = c.get("mform", "bool")
     if own == "nomask":
         x = np.ma.array(a)
     elif own is not None:
-        x = np.ma.array(a, mask=np.array(own, dtype=bool).reshape(shape))
+        x = np.ma.array(a, mask=_mask_as(own, shape, mform))
     else:
         x = a
     if c["quant"]:
         x = fm.UNITS.Quantity(x, "m")
-    arg = _py_mask(c["arg"])
+    arg = _mask_as(c["arg"]["bits"], c["arg"]["shape"], mform) if _is_bits(c["arg"]) else _py_mask(c["arg"])
     obs = {}
     try:
         if c["arg"] == "unset" and c.get("argform") == "omit":
@@ -636,7 +680,7 @@ def _run_round(c):
     if own == "nomask":
         eff = np.ma.nomask
     elif own is not None:
-        eff = np.array(own, dtype=bool).reshape(shape)
+        eff = _mask_as(own, shape, mform)
     kwargs = {"fill_value": -7} if c["kw"] else {}
     try:
         res = fm.data.from_compressed(comp, shape, order=c["order"], mask=eff, **kwargs)
@@ -1159,6 +1203,8 @@ def distribution(cases, obss):
     orders = Counter(c["order"] for c in cases if "order" in c)
     forms = Counter(("own" if c["own"] is not None else "arg:" + (c["arg"] if isinstance(c["arg"], str) else "bits"))
                     + ("/pint" if c["quant"] else "") for c in cases if c["k"] == "round")
+    mforms = Counter(("own:" if c["own"] is not None else "arg:") + c.get("mform", "bool") for c in cases
+                     if c["k"] == "round" and (isinstance(c["own"], list) or _is_bits(c["arg"])))
     pforms = Counter(c["form"] + "/" + c["order"] for c in cases if c["k"] == "prepare")
     acc = Counter()
     for c, o in zip(cases, obss):
@@ -1166,7 +1212,7 @@ def distribution(cases, obss):
             acc["accept:" + str(o["compatible"])] += 1
         if c["k"] == "exchange" and "res" in o:
             acc["exchange/" + o.get("via", "?") + ":" + o["res"][0]] += 1
-    return {"kinds": dict(kinds), "ranks": dict(ranks), "orders": dict(orders), "round_forms": dict(forms),
+    return {"kinds": dict(kinds), "ranks": dict(ranks), "orders": dict(orders), "round_forms": dict(forms), "explicit_mask_written_as": dict(mforms),
             "prepare_forms": dict(pforms), "acceptance_outcomes": dict(acc)}
 
 
